@@ -6,7 +6,7 @@ REQUIRED = ["DaeVerif.C06.Props." + n for n in (
     "tls_sni_found", "tls_sni_sound", "tls_total", "tls_record_total",
     "sniff_tcp_chunk_invariant", "normalize_ordinary_name", "relay_identity", "sniff_tcp_sound",
     "sniff_returns_by_deadline", "sniff_timed_refines",
-    "http_host_found", "http_host_sound", "sniff_tcp_http_one_read",
+    "http_host_found_partial", "http_host_sound", "sniff_tcp_http_one_read_partial",
     "quic_sni_sound", "reassembly_keeps_slices", "quic_flight_found", "quic_header_walk_roundtrip", "quic_datagram_found_partial",
     "udp_not_withheld_when_complete", "udp_flow_in_order",
 )]
@@ -157,6 +157,18 @@ def run(ctx):
                        "replay": "VERIF_SEED=%d ./check C06 %s" % (ctx.seed, ctx.tier)},
                        key="c06-udp-withheld-stranded-by-other-connection" if l.startswith("two QUIC connections") else None)
     fstats = json.load(open(os.path.join(ctx.out, "c06flow.stats.json")))
+    # directed scenarios of open findings: reported under their key (KNOWN-FINDING while the key is listed
+    # as open in known_findings.jsonl; a VIOLATION once it is listed as fixed and still reproduces)
+    kn = os.path.join(ctx.out, "c06.known")
+    if os.path.exists(kn):
+        listed = {k.get("key") for k in ctx.known}
+        for l in read_lines(kn)[:10]:
+            key, what = l.split(" ", 1)
+            if key in listed:
+                ctx.report("open finding reproduced: " + what[:500], {"finding": l}, key=key)
+            else:
+                ctx.say(f"NOTE proposed open finding {key} (not yet in known_findings.jsonl) reproduces: {what[:200]}")
+                ctx.cov.setdefault("unlisted_open_findings", []).append(l[:300])
     opl = read_lines(ops)
     flow_ops = read_lines(fops)
     kinds = {}
@@ -198,7 +210,10 @@ def run(ctx):
               "quic.version.draft29": 15, "quic.version.grease_version": 15, "quic.corrupt": 30, "quic.coalesced": 30,
               "tcp.data_with_eof_or_reset": 400, "tcp.read_size.1": 100, "tcp.stall_inserted": 100, "tcp.tail.rst": 100,
               "timed.answer.timeout": 60, "timed.trickle": 25, "timed.gap_near_deadline": 25, "timed.eof_after_part": 25,
-              "timed.drain.async": 10, "flow.two_connections": 30, "flow.short_header_between": 8, "flow.with_noise_flows": 30,
+              "timed.drain.async": 10, "flow.two_connections": 30, "flow.two_connections_two_or_more_held": 8,
+              "flow.dial_failure.undecryptable_retransmitted": 10, "flow.dial_failure.valid_flight": 5,
+              "flow.many_datagrams": 10, "flow.non_initial_after_two_or_more": 3, "quic.many_datagrams": 10,
+              "tcp.writeto_real_tcpconn": 100,  # needs a loopback TCP listener (exit 2 without one) "flow.short_header_between": 8, "flow.with_noise_flows": 30,
               "hello.two_sni_exts": 20, "hello.empty_last_ext": 40, "replay.short_sni_ext": 4}
     low = {k: (allc.get(k, 0), f) for k, f in floors.items() if allc.get(k, 0) < f}
     ctx.cov["generator_floors"] = floors
@@ -207,7 +222,9 @@ def run(ctx):
         return 2
     ctx.assumptions = [
         "one ClientHello per TLS record (hellos fragmented over several records are out of the sniffer's scope)",
-        "generated inputs (seeded): hellos <= ~4 KB, <= 4 QUIC packets / datagrams per flight, stream scripts <= ~70 reads",
+        "generated inputs (seeded): hellos up to 17 KB, QUIC flights of 1-4 packets or (large hellos) 6-18 datagrams of 1200 bytes, "
+        "stream scripts <= ~70 reads; HTTP methods limited to the sixteen of common.IsValidHttpMethod (open finding c06-http-method-outside-list)",
+        "needs a loopback TCP listener (127.0.0.1:0) for the *net.TCPConn branch of ConnSniffer.WriteTo; without one the check exits 2",
     ]
     return ctx.finish(rule="one op = one input to the real code and to the model: tls/rec (bytes -> name|error), "
                            "tcp (scripted reads + drain mode -> answer, buffer, relayed bytes, end), http, norm, "
